@@ -39,7 +39,7 @@ Proof. exact shared_refines_spec_import. Qed.
 Print Assumptions C05_shared_refines_spec.
 
 (* the one-graph-per-id store refines it as long as every import goes to an id that holds no nodes and every
-   clone goes from a graph that holds nodes to an id that holds none ([disjoint_scope_run], evaluated on the
+   clone of a graph that holds nodes goes to an id that holds none ([disjoint_scope_run], evaluated on the
    reference run) ... *)
 Theorem C05_disjoint_refines_spec_partial : forall ops,
   (forall o, In o ops -> refine_scope o = true) -> disjoint_scope_run [] ops = true ->
@@ -50,24 +50,24 @@ Print Assumptions C05_disjoint_refines_spec_partial.
 
 (* ... and these are exactly its deviations (FULL statement - the same without [disjoint_scope_run] - is false):
    an import or a clone onto an id that holds nodes does nothing and returns normally (the reference and the
-   shared store replace the graph); a clone of a graph without nodes returns normally and creates nothing
-   (the reference and the shared store fail).  Known findings of C05 / C04, proposed fixes C05-3, C05-4. *)
+   shared store replace the graph).  Known finding of C05 / C04 (deliberate in the code; proposed fix C05-3 not landed). *)
 Theorem C05_disjoint_reimport_live_skips : forall d g ig,
   gn (dget d g) <> [] -> dstep d (OImport g ig) = (d, Ok RUnit).
 Proof. exact disjoint_reimport_live_skips. Qed.
 Print Assumptions C05_disjoint_reimport_live_skips.
 
 Theorem C05_disjoint_clone_live_skips : forall d g g2,
-  gn (dget d g2) <> [] -> dstep d (OClone g g2) = (d, Ok RUnit).
+  gn (dget d g) <> [] -> gn (dget d g2) <> [] -> dstep d (OClone g g2) = (d, Ok RUnit).
 Proof. exact disjoint_clone_live_skips. Qed.
 Print Assumptions C05_disjoint_clone_live_skips.
 
-Theorem C05_disjoint_clone_absent_source : forall d g g2,
-  gn (dget d g) = [] -> gn (dget d g2) = [] ->
-  snd (dstep d (OClone g g2)) = Ok RUnit /\ gn (dget (fst (dstep d (OClone g g2))) g2) = [] /\
-  forall sp, sp_exists (sget sp g) = false -> snd (spec_step sp (OClone g g2)) = Err EAttr.
-Proof. exact disjoint_clone_absent_source. Qed.
-Print Assumptions C05_disjoint_clone_absent_source.
+(* a clone of a graph without nodes is refused by both stores and the reference alike (PropertyGraphQueryException,
+   fix fdc67eb), nothing changes *)
+Theorem C05_clone_absent_source_agrees : forall s d g g2,
+  fst (view (sg s) g) = [] -> NoDup (ids (sg s)) -> gn (dget d g) = [] ->
+  sstep s (OClone g g2) = (s, Err EQuery) /\ dstep d (OClone g g2) = (d, Err EQuery).
+Proof. exact clone_absent_source_agrees. Qed.
+Print Assumptions C05_clone_absent_source_agrees.
 
 (* same results, same exceptions, same content, step by step: FULL strength on the operations the property
    quantifies over (no import / clone in the history) ... *)
@@ -94,18 +94,12 @@ Theorem C05_xspec_conservative : forall ops sp,
 Proof. exact xspec_merge_free. Qed.
 Print Assumptions C05_xspec_conservative.
 
-(* concrete witnesses of the deviations (replayed on the real code on every run) *)
+(* concrete witness of the deviation (replayed on the real code on every run) *)
 Theorem C05_agree_reimport_live_refuted :
   exists ops, (forall o, In o ops -> in_spec_scope o = true) /\
               results_eqb (sresults init_store ops) (dresults init_dstore ops) = false.
 Proof. exact agree_reimport_live_refuted. Qed.
 Print Assumptions C05_agree_reimport_live_refuted.
-
-Theorem C05_agree_clone_absent_source_refuted :
-  exists ops, (forall o, In o ops -> in_spec_scope o = true) /\
-              results_eqb (sresults init_store ops) (dresults init_dstore ops) = false.
-Proof. exact agree_clone_absent_source_refuted. Qed.
-Print Assumptions C05_agree_clone_absent_source_refuted.
 
 (* ---- identity properties cannot be unset, Class cannot be changed ---- *)
 Theorem C05_identity_unset_rejected : forall s g n p,
